@@ -1,4 +1,4 @@
-(** Proofs about Model/RouteCmd.v: the text routecmd.build writes, read by the command parser of
+(** Proofs about Model/RouteCmd.v: the text routecmd.build writes (and, since /repo d16ce3d, validates), read by the command parser of
     Model/RouteText.v and turned into a table by Model/TableCmd.v. *)
 From Coq Require Import String List NArith ZArith Bool Lia.
 From Fabio Require Import Lib.Outcome Lib.Bytes Model.WtF64 Model.TableCmd Model.RouteText Model.RouteCmd Proofs.TableCmd.
@@ -342,22 +342,23 @@ Definition oopt (os : list str) : option str := match os with [] => None | _ => 
 Lemma parse_weight_wopt pw w : parse_weight pw (wopt w) = parse_weight pw (Some w).
 Proof. destruct w; reflexivity. Qed.
 
-Definition tag_cond (t : str) : bool := no_quote t && no_comma t && no_nl t && beq (trim_space t) t.
+Definition tag_cond (t : str) : bool := no_quote t && no_comma t && no_nl t && no_cr t && beq (trim_space t) t.
+
+Lemma tag_cond_inv t : tag_cond t = true ->
+  no_quote t = true /\ no_comma t = true /\ no_nl t = true /\ no_cr t = true /\ trim_space t = t.
+Proof.
+  unfold tag_cond. intros H. repeat (apply andb_true_iff in H as [H ?]). apply beq_eq in H0. auto.
+Qed.
 
 Section Denote.
-  Variable isp : N -> bool.
   Variable pw : str -> outcome wt.
   Variable canon : str -> option str.
   Variable gl : str -> bool.
 
-  Lemma tags_ok_inv ts : tags_ok isp ts = true -> ts <> [] ->
-    ts <> [[]] /\ forallb tag_cond ts = true /\ quote_body isp O false (join ts [44]) = join ts [44].
+  Lemma tags_ok_inv ts : tags_ok ts = true -> ts <> [] -> ts <> [[]] /\ forallb tag_cond ts = true.
   Proof.
     intros H Hne. destruct ts as [|t ts]; [congruence|].
-    assert (Hc : (t :: ts) <> [[]] /\ forallb tag_cond (t :: ts) && quote_stable isp (join (t :: ts) [44]) = true).
-    { destruct t as [|c t]; [destruct ts as [|t2 ts]|]; cbn [tags_ok] in H; try discriminate; (split; [discriminate | exact H]). }
-    destruct Hc as [H1 H2]. apply andb_true_iff in H2 as [H2 H3]. repeat split; auto.
-    now apply beq_eq in H3.
+    destruct t as [|c t]; [destruct ts as [|t2 ts]|]; cbn [tags_ok] in H; try discriminate; (split; [discriminate | exact H]).
   Qed.
 
   Lemma join_nonempty (ts : list str) c : ts <> [] -> ts <> [[]] -> join ts [c] <> [].
@@ -367,41 +368,38 @@ Section Denote.
     - change (join (t :: t2 :: r) [c]) with (t ++ [c] ++ join (t2 :: r) [c]). destruct t; discriminate.
   Qed.
 
-  Lemma parse_tags_topt ts : tags_ok isp ts = true -> parse_tags (ostr (topt ts)) = ts.
+  Lemma parse_tags_topt ts : tags_ok ts = true -> parse_tags (ostr (topt ts)) = ts.
   Proof.
     intros H. destruct ts as [|t ts]; [reflexivity|].
-    destruct (tags_ok_inv _ H) as (H1 & H2 & _); [discriminate|].
+    destruct (tags_ok_inv _ H) as (H1 & H2); [discriminate|].
     cbn [topt ostr]. unfold parse_tags.
     pose proof (join_nonempty (t :: ts) 44 ltac:(discriminate) H1) as Hn.
     destruct (join (t :: ts) [44]) eqn:E; [congruence|]. rewrite <- E.
     rewrite split_join; [| discriminate |].
-    - apply map_id_in. intros x Hx. rewrite forallb_forall in H2. specialize (H2 x Hx).
-      unfold tag_cond in H2. apply andb_true_iff in H2 as [_ H2]. now apply beq_eq in H2.
-    - eapply forallb_impl; [|exact H2]. intros x Hx. unfold tag_cond in Hx.
-      apply andb_true_iff in Hx as [Hx _]. apply andb_true_iff in Hx as [Hx _]. apply andb_true_iff in Hx as [_ Hx]. exact Hx.
+    - apply map_id_in. intros x Hx. rewrite forallb_forall in H2. specialize (H2 x Hx). now apply tag_cond_inv in H2.
+    - eapply forallb_impl; [|exact H2]. intros x Hx. now apply tag_cond_inv in Hx.
   Qed.
 
-  Lemma parse_opts_oopt os : opts_ok isp os = true -> parse_opts (ostr (oopt os)) = opts_map os.
+  Lemma parse_opts_oopt os : opts_ok os = true -> parse_opts (ostr (oopt os)) = opts_map os.
   Proof.
     intros H. destruct os as [|o os]; [reflexivity|]. cbn [oopt ostr]. unfold parse_opts, opts_map.
-    rewrite fields_join; [reflexivity|]. unfold opts_ok in H. apply andb_true_iff in H as [H _].
+    rewrite fields_join; [reflexivity|]. unfold opts_ok in H.
     eapply forallb_impl; [|exact H]. intros x Hx. now apply andb_true_iff in Hx as [Hx _].
   Qed.
 
-  Lemma owf_topt ts : tags_ok isp ts = true -> owf no_quote (topt ts).
+  Lemma owf_topt ts : tags_ok ts = true -> owf no_quote (topt ts).
   Proof.
     intros H x Hx. destruct ts as [|t ts]; [discriminate|]. unfold topt in Hx. injection Hx as <-.
-    destruct (tags_ok_inv _ H) as (_ & H2 & _); [discriminate|].
+    destruct (tags_ok_inv _ H) as (_ & H2); [discriminate|].
     change (lacks 34 (join (t :: ts) [44]) = true).
     apply (lacks_join 34 [44]); [|reflexivity]. eapply forallb_impl; [|exact H2].
-    intros x Hx. unfold tag_cond in Hx. apply andb_true_iff in Hx as [Hx _]. apply andb_true_iff in Hx as [Hx _].
-    now apply andb_true_iff in Hx as [Hx _].
+    intros x Hx. now apply tag_cond_inv in Hx.
   Qed.
 
-  Lemma owf_oopt os : opts_ok isp os = true -> owf no_quote (oopt os).
+  Lemma owf_oopt os : opts_ok os = true -> owf no_quote (oopt os).
   Proof.
     intros H x Hx. destruct os as [|o os]; [discriminate|]. unfold oopt in Hx. injection Hx as <-.
-    unfold opts_ok in H. apply andb_true_iff in H as [H _].
+    unfold opts_ok in H.
     change (lacks 34 (join (o :: os) sp) = true).
     apply (lacks_join 34 sp); [|reflexivity]. eapply forallb_impl; [|exact H].
     intros x Hx. now apply andb_true_iff in Hx as [_ Hx].
@@ -413,46 +411,40 @@ Section Denote.
     cbn [weight_ok] in H. apply andb_true_iff in H as [H _]. unfold word_ok. now rewrite H.
   Qed.
 
-  (* on the expressible domain the text of a command is the plain concatenation of its parts *)
-  Lemma render_is_line i : tags_ok isp (i_tags i) = true -> opts_ok isp (i_opts i) = true ->
-    render_intent isp i =
+  (* since d16ce3d the text of a command is the plain concatenation of its parts, always *)
+  Lemma render_is_line i :
+    render_intent i =
       line_of (i_svc i) (i_route i) (i_dst i) (wopt (i_weight i)) (topt (i_tags i)) (oopt (i_opts i)).
   Proof.
-    intros Ht Ho. unfold render_intent, line_of.
+    unfold render_intent, line_of.
     change s_route_add with s_route_add_l. f_equal. f_equal. unfold sp at 1 2. cbn [app]. f_equal. f_equal. f_equal. f_equal.
     f_equal; [destruct (i_weight i); reflexivity|]. f_equal.
-    - destruct (i_tags i) as [|t ts] eqn:E; [reflexivity|]. rewrite <- E in *.
-      destruct (tags_ok_inv _ Ht) as (_ & _ & Hq); [rewrite E; discriminate|].
-      rewrite E at 1 2. cbn [topt Tq]. rewrite <- E. unfold quote. rewrite Hq. reflexivity.
-    - destruct (i_opts i) as [|o os] eqn:E; [reflexivity|]. rewrite <- E in *.
-      unfold opts_ok in Ho. apply andb_true_iff in Ho as [_ Hq]. apply beq_eq in Hq.
-      rewrite E at 1 2. cbn [oopt Oq]. rewrite <- E. unfold quote. rewrite Hq. reflexivity.
+    - destruct (i_tags i); reflexivity.
+    - destruct (i_opts i); reflexivity.
   Qed.
 
-  Definition expr := intent_expressible isp pw canon gl.
+  Definition expr := intent_expressible pw canon gl.
 
   Lemma expr_inv i : expr i = true ->
     word_ok (i_svc i) = true /\ word_ok (i_route i) = true /\ gl (snd (hostpath (i_route i))) = true
     /\ gl (lower (fst (hostpath (i_route i)))) = true
     /\ word_ok (i_dst i) = true /\ (exists u, canon (i_dst i) = Some u) /\ weight_ok pw (i_weight i) = true
-    /\ tags_ok isp (i_tags i) = true /\ opts_ok isp (i_opts i) = true.
+    /\ tags_ok (i_tags i) = true /\ opts_ok (i_opts i) = true.
   Proof.
-    unfold expr, intent_expressible, F_C14_altering. intros H. apply andb_true_iff in H as [Hb Ha].
-    rewrite Hb in Ha. cbn [andb] in Ha. rewrite negb_involutive in Ha. apply andb_true_iff in Ha as [Ht Ho].
-    unfold F_C14_blocking in Hb. rewrite negb_involutive in Hb.
+    unfold expr, intent_expressible. intros Hb.
     repeat (apply andb_true_iff in Hb as [Hb ?]).
     assert (Hc : exists u, canon (i_dst i) = Some u) by (destruct (canon (i_dst i)); [eauto | discriminate]).
-    split; [unfold word_ok; now rewrite Hb, H7|]. split; [assumption|]. split; [assumption|]. split; [assumption|]. split; [assumption|].
-    split; [exact Hc|]. split; [assumption|]. split; assumption.
+    split; [unfold word_ok; apply andb_true_iff; split; assumption|].
+    repeat (split; [assumption|]). assumption.
   Qed.
 
   (* (1), character level: the line parses to the definition the intent stands for *)
   Theorem render_parse_line i : expr i = true ->
-    exists d, intent_def pw i = Ok d /\ parse_line pw (render_intent isp i) = Ok (Some d)
-              /\ ends_ns (render_intent isp i) = true.
+    exists d, intent_def pw i = Ok d /\ parse_line pw (render_intent i) = Ok (Some d)
+              /\ ends_ns (render_intent i) = true.
   Proof.
     intros H. destruct (expr_inv i H) as (Hs & Hr & Hg & Hh & Hd & Hc & Hw & Ht & Ho).
-    rewrite render_is_line by assumption.
+    rewrite render_is_line.
     rewrite parse_line_of by (auto using owf_wopt, owf_topt, owf_oopt).
     rewrite parse_weight_wopt, parse_tags_topt, parse_opts_oopt by assumption.
     unfold intent_def.
@@ -464,61 +456,44 @@ Section Denote.
     apply ends_ns_line; auto using owf_wopt.
   Qed.
 
-  Lemma render_lacks_nl i : expr i = true -> lacks 10 (render_intent isp i) = true.
+  (* no line break in the line of an expressible registration: c = LF or CR *)
+  Lemma render_lacks c i : c = 10 \/ c = 13 -> expr i = true -> lacks c (render_intent i) = true.
   Proof.
-    intros H. destruct (expr_inv i H) as (Hs & Hr & Hg & Hh & Hd & Hc & Hw & Ht & Ho).
-    rewrite render_is_line by assumption. unfold line_of.
-    assert (W : forall t, word_ok t = true -> lacks 10 t = true).
+    intros Hc0 H. destruct (expr_inv i H) as (Hs & Hr & Hg & Hh & Hd & Hc & Hw & Ht & Ho).
+    assert (Hsp : go_space c = true) by (destruct Hc0 as [-> | ->]; reflexivity).
+    assert (K : forall k, In k [s_route_add_l; [32]; [34]; [44]; sp; s_weight_l; s_tags_l; s_opts_l] -> lacks c k = true).
+    { intros k Hk. cbn [In] in Hk. destruct Hc0 as [-> | ->];
+        repeat (destruct Hk as [<-|Hk]; [reflexivity|]); destruct Hk. }
+    rewrite render_is_line. unfold line_of.
+    assert (W : forall t, word_ok t = true -> lacks c t = true).
     { intros t Hwd. apply andb_true_iff in Hwd as [_ Hwd]. now apply space_free_lacks. }
     change (32 :: i_route i ++ 32 :: i_dst i ++ ?x) with ([32] ++ i_route i ++ [32] ++ i_dst i ++ x).
-    rewrite !lacks_app, (W _ Hs), (W _ Hr), (W _ Hd). cbn [andb].
-    change (lacks 10 s_route_add_l) with true. change (lacks 10 [32]) with true. cbn [andb].
+    rewrite !lacks_app, (W _ Hs), (W _ Hr), (W _ Hd).
+    rewrite (K s_route_add_l), (K [32]) by (cbn [In]; auto 10). cbn [andb].
     apply andb_true_iff. split; [|apply andb_true_iff; split].
     - pose proof (owf_wopt _ Hw) as Hx. destruct (wopt (i_weight i)) as [x|]; [|reflexivity].
-      unfold Wq. rewrite lacks_app. rewrite (W x (Hx x eq_refl)). reflexivity.
+      unfold Wq. rewrite lacks_app. rewrite (W x (Hx x eq_refl)), (K s_weight_l) by (cbn [In]; auto 10). reflexivity.
     - destruct (i_tags i) as [|t ts] eqn:E; [reflexivity|]. rewrite <- E in *.
-      destruct (tags_ok_inv _ Ht) as (_ & H2 & _); [rewrite E; discriminate|].
+      destruct (tags_ok_inv _ Ht) as (_ & H2); [rewrite E; discriminate|].
       rewrite E at 1. cbn [topt Tq]. rewrite <- E.
       change (34 :: join (i_tags i) [44] ++ [34]) with ([34] ++ join (i_tags i) [44] ++ [34]).
-      rewrite !lacks_app. change (lacks 10 s_tags_l) with true. change (lacks 10 [34]) with true.
-      rewrite (lacks_join 10 [44]); [reflexivity| |reflexivity].
-      eapply forallb_impl; [|exact H2]. intros x Hx. unfold tag_cond in Hx.
-      apply andb_true_iff in Hx as [Hx _]. now apply andb_true_iff in Hx as [_ Hx].
+      rewrite !lacks_app. rewrite (K s_tags_l), (K [34]) by (cbn [In]; auto 10).
+      rewrite (lacks_join c [44]); [reflexivity| |apply K; cbn [In]; auto 10].
+      eapply forallb_impl; [|exact H2]. intros x Hx. apply tag_cond_inv in Hx as (_ & _ & Hn & Hr' & _).
+      destruct Hc0 as [-> | ->]; assumption.
     - destruct (i_opts i) as [|o os] eqn:E; [reflexivity|]. rewrite <- E in *.
-      unfold opts_ok in Ho. apply andb_true_iff in Ho as [H2 _].
+      unfold opts_ok in Ho.
       rewrite E at 1. cbn [oopt Oq]. rewrite <- E.
       change (34 :: join (i_opts i) sp ++ [34]) with ([34] ++ join (i_opts i) sp ++ [34]).
-      rewrite !lacks_app. change (lacks 10 s_opts_l) with true. change (lacks 10 [34]) with true.
-      rewrite (lacks_join 10 sp); [reflexivity| |reflexivity].
-      eapply forallb_impl; [|exact H2]. intros x Hx. apply andb_true_iff in Hx as [Hx _]. now apply W.
+      rewrite !lacks_app. rewrite (K s_opts_l), (K [34]) by (cbn [In]; auto 10).
+      rewrite (lacks_join c sp); [reflexivity| |apply K; cbn [In]; auto 10].
+      eapply forallb_impl; [|exact Ho]. intros x Hx. apply andb_true_iff in Hx as [Hx _]. now apply W.
   Qed.
 
-  (* (1) for a catalog entry: every command routecmd.build makes from an expressible entry is
-     accepted by route.Parse and yields exactly one definition, which says what the entry says *)
-  Theorem build_parse_denotes env prefix g :
-    expressible isp pw canon gl env prefix g = true ->
-    Forall (fun i => exists d, parse pw (render_intent isp i) = Ok [d]
-                      /\ intent_def pw i = Ok d
-                      /\ d_cmd d = CmdAdd /\ d_svc d = g_name g /\ d_src d = i_route i /\ d_dst d = i_dst i
-                      /\ parse_weight pw (Some (i_weight i)) = Ok (d_w d)
-                      /\ d_tags d = svc_tags prefix g /\ d_opts d = opts_map (i_opts i))
-           (intents env prefix g).
-  Proof.
-    unfold expressible. intros H. apply Forall_forall. intros i Hi.
-    rewrite forallb_forall in H. specialize (H i Hi).
-    destruct (render_parse_line i H) as (d & Hd & Hp & He). exists d.
-    assert (Hi' : i_svc i = g_name g /\ i_tags i = svc_tags prefix g).
-    { unfold intents in Hi. apply in_flat_map in Hi as (tag & _ & Hi). unfold intent_of_tag in Hi.
-      destruct (parse_url_prefix_tag env prefix tag) as [[r o]|]; [|destruct Hi].
-      destruct (fold_left _ _ _) as [[dst w] ro]. destruct Hi as [<-|[]]. split; reflexivity. }
-    destruct Hi' as [Hn Ht].
-    split.
-    - unfold parse. rewrite split_lacks by (now apply render_lacks_nl). cbn [parse_lines].
-      rewrite drop_cr_id by assumption. rewrite Hp. reflexivity.
-    - split; [exact Hd|]. unfold intent_def in Hd.
-      destruct (parse_weight pw (Some (i_weight i))) as [f| |]; try discriminate.
-      inversion Hd; subst d. cbn [d_cmd d_svc d_src d_dst d_w d_tags d_opts]. repeat split; auto.
-  Qed.
+  Lemma render_lacks_nl i : expr i = true -> lacks 10 (render_intent i) = true.
+  Proof. apply render_lacks. now left. Qed.
+  Lemma render_lacks_cr i : expr i = true -> lacks 13 (render_intent i) = true.
+  Proof. apply render_lacks. now right. Qed.
 End Denote.
 
 (* ================= the table built from expressible registrations ================= *)
@@ -526,7 +501,7 @@ Lemma in_insert_desc x r rs : In x (insert_desc r rs) <-> x = r \/ In x rs.
 Proof.
   induction rs as [|y rs IH]; cbn [insert_desc In].
   - intuition auto.
-  - destruct (str_ltb (r_path y) (r_path r)); cbn [In]; rewrite ?IH; intuition auto.
+  - destruct (str_ltb _ _); cbn [In]; rewrite ?IH; intuition auto.
 Qed.
 
 Lemma in_sort_routes x rs : In x (sort_routes rs) <-> In x rs.
@@ -558,7 +533,6 @@ Definition trip (d : def) (url : str) : str * str * target :=
    new_target (d_svc d) url (d_w d) (d_tags d) (d_opts d)).
 
 Section TableDomain.
-  Variable isp : N -> bool.
   Variable pw : str -> outcome wt.
   Variable canon : str -> option str.
   Variable gl : str -> bool.
@@ -573,6 +547,16 @@ Section TableDomain.
     destruct (hostpath (d_src d)) as [h p]. cbn [fst snd] in Hg, Hh. rewrite Hu, Hg, Hh.
     destruct (d_src d); [congruence|]. destruct (d_dst d); [congruence|].
     destruct (lookup (lower h) t) as [rs0|]; [destruct (find p rs0)|]; eauto.
+  Qed.
+
+  (* what addRoute checks on the empty table it checks on no other table less *)
+  Lemma add_route_nil_addable d t1 : d_cmd d = CmdAdd -> add_route canon gl [] d = Ok t1 -> addable d.
+  Proof.
+    intros Hc. unfold add_route, addable. destruct (hostpath (d_src d)) as [h p]. cbn [fst snd lookup].
+    destruct (d_src d); [discriminate|]. destruct (d_dst d); [discriminate|].
+    destruct (canon _) as [u|]; [|discriminate].
+    destruct (gl (lower h)); [|discriminate]. destruct (gl p); [|discriminate]. intros _.
+    repeat split; auto; try discriminate. eauto.
   Qed.
 
   Lemma run_from_adds ds : forall t, Forall addable ds ->
@@ -609,34 +593,281 @@ Section TableDomain.
         * right. exists d', u'. split; [now right | auto].
   Qed.
 
-  Lemma parse_lines_map {A} (g : A -> str) (f : A -> option def) xs :
-    (forall x, In x xs -> parse_line pw (drop_cr (g x)) = Ok (f x)) ->
-    parse_lines pw (map g xs) = Ok (flat_map (fun x => olist (f x)) xs).
+  (* ---- a text made of good lines: each line alone is one addable 'route add' ---- *)
+  Definition good_line (l : str) : Prop :=
+    lacks 10 l = true /\ lacks 13 l = true /\ exists d, parse_line pw l = Ok (Some d) /\ addable d.
+
+  Definition ldef (l : str) : option def := match parse_line pw l with Ok (Some d) => Some d | _ => None end.
+
+  Lemma drop_cr_lacks l : lacks 13 l = true -> drop_cr l = l.
   Proof.
-    induction xs as [|x xs IH]; intros H; cbn [parse_lines flat_map map]; [reflexivity|].
-    rewrite (H x (or_introl eq_refl)). cbn [bind]. rewrite IH by (intros; apply H; now right). cbn [bind].
-    destruct (f x); reflexivity.
+    intros H. unfold drop_cr. destruct (rev l) as [|c r] eqn:E; [reflexivity|].
+    destruct (N.eq_dec c 13) as [->|N].
+    - exfalso. unfold lacks in H. apply negb_true_iff in H.
+      enough (existsb (N.eqb 13) l = true) by congruence. apply existsb_exists. exists 13. split; [|reflexivity].
+      apply in_rev. rewrite E. now left.
+    - destruct c as [|p]; auto. do 4 (destruct p; auto). congruence.
   Qed.
 
-  Definition idef (i : intent) : option def := match intent_def pw i with Ok d => Some d | _ => None end.
-
-  Let ex := expr isp pw canon gl.
-
-  Lemma idef_addable i d : ex i = true -> idef i = Some d -> addable d.
+  (* the table of ANY list of good lines: accepted, holds the target of every line, nothing else *)
+  Theorem lines_table (ls : list str) : Forall good_line ls ->
+    exists t, new_table pw canon gl (config_text ls) = Ok t
+      /\ (forall l d, In l ls -> parse_line pw l = Ok (Some d) -> exists url tg, canon (d_dst d) = Some url
+             /\ In (lower (fst (hostpath (d_src d))), snd (hostpath (d_src d)), tg) (flat t)
+             /\ same_target (d_svc d) url (w_clamp (d_w d)) (d_tags d) tg = true)
+      /\ (forall x, In x (flat t) -> exists l d url, In l ls /\ parse_line pw l = Ok (Some d)
+             /\ canon (d_dst d) = Some url /\ x = trip d url).
   Proof.
-    intros H E. destruct (expr_inv isp pw canon gl i H) as (Hs & Hr & Hg & Hh & Hd & Hc & Hw & Ht & Ho).
-    unfold idef, intent_def in E. destruct (parse_weight pw (Some (i_weight i))); try discriminate.
-    inversion E; subst d. unfold addable. cbn [d_cmd d_src d_dst]. repeat split; auto.
+    intros Hall. rewrite Forall_forall in Hall.
+    assert (Hparse : parse pw (config_text ls) = Ok (flat_map (fun l => olist (ldef l)) ls)).
+    { destruct ls as [|l0 ls0] eqn:Els; [reflexivity|]. rewrite <- Els in *.
+      unfold parse, config_text. rewrite split_join.
+      - apply parse_lines_each. intros l Hl. destruct (Hall l Hl) as (_ & Hcr & d & Hd & _).
+        rewrite drop_cr_lacks by assumption. unfold ldef. now rewrite Hd.
+      - rewrite Els. discriminate.
+      - apply forallb_forall. intros l Hl. now destruct (Hall l Hl). }
+    assert (Hadd : Forall addable (flat_map (fun l => olist (ldef l)) ls)).
+    { apply Forall_forall. intros d Hd. apply in_flat_map in Hd as (l & Hl & Hd).
+      destruct (Hall l Hl) as (_ & _ & d' & Hd' & Ha). unfold ldef in Hd. rewrite Hd' in Hd.
+      destruct Hd as [<-|[]]. exact Ha. }
+    destruct (run_from_adds _ [] Hadd) as (t0 & Hrun & _ & Hin & Horig).
+    exists (sort_table t0). unfold new_table. rewrite Hparse. cbn [bind]. unfold run. rewrite Hrun. cbn [bind].
+    split; [reflexivity|]. split.
+    - intros l d Hl Hd.
+      assert (Hdin : In d (flat_map (fun l => olist (ldef l)) ls)).
+      { apply in_flat_map. exists l. split; auto. unfold ldef. rewrite Hd. now left. }
+      destruct (Hin d Hdin) as (url & tg & Hu & Htg & Hs). exists url, tg.
+      split; [exact Hu|]. split; [now apply (proj2 (in_flat_sort _ _)) | exact Hs].
+    - intros x Hx. apply (proj1 (in_flat_sort _ _)) in Hx. destruct (Horig x Hx) as [[]|(d & url & Hd & Hu & ->)].
+      apply in_flat_map in Hd as (l & Hl & Hd). unfold ldef in Hd.
+      destruct (parse_line pw l) as [[d'|]| |] eqn:E; cbn [olist In] in Hd; try contradiction.
+      destruct Hd as [<-|[]]. exists l, d', url. auto.
+  Qed.
+
+  (* ---- a rendered line that passes validate is a good line ---- *)
+  Lemma drop_while_keeps (p : N -> bool) a c b : p c = false ->
+    exists y, drop_while p (a ++ 32 :: c :: b) = y ++ c :: b.
+  Proof.
+    intros Hc. induction a as [|x a (y & IH)]; cbn [app drop_while].
+    - destruct (p 32); [rewrite Hc; now exists [] | now exists [32]].
+    - destruct (p x); [now exists y|]. exists (x :: a ++ [32]). cbn [app]. now rewrite <- app_assoc.
+  Qed.
+
+  Definition s_route_add_nosp : str := [114;111;117;116;101;32;97;100;100].
+
+  Lemma trim_route_add rest : exists z, trim_space (s_route_add_l ++ rest) = s_route_add_nosp ++ z.
+  Proof.
+    unfold trim_space, s_route_add_l. cbn [app drop_while]. change (go_space 114) with false. cbn iota.
+    change (114 :: 111 :: 117 :: 116 :: 101 :: 32 :: 97 :: 100 :: 100 :: 32 :: rest)
+      with (s_route_add_nosp ++ 32 :: rest).
+    rewrite rev_app_distr. cbn [rev app]. rewrite <- !app_assoc. cbn [app].
+    change (rev s_route_add_nosp) with (100 :: [100;97;32;101;116;117;111;114]).
+    destruct (drop_while_keeps go_space (rev rest) 100 [100;97;32;101;116;117;111;114] eq_refl) as (y & ->).
+    exists (rev y). rewrite rev_app_distr. reflexivity.
+  Qed.
+
+  Lemma parse_line_route_add rest :
+    exists z, parse_line pw (s_route_add_l ++ rest) = bind (parse_route_add pw z) (fun d => Ok (Some d)).
+  Proof.
+    destruct (trim_route_add rest) as (z & E). exists z. unfold parse_line. rewrite E.
+    unfold s_route_add_nosp. cbn [app]. reflexivity.
+  Qed.
+
+  Lemma parse_route_add_cmd z d : parse_route_add pw z = Ok d -> d_cmd d = CmdAdd.
+  Proof.
+    unfold parse_route_add. destruct (match_add z) as [[[[[[? ?] ?] ?] ?] ?]|]; [|discriminate].
+    destruct (parse_weight pw _); try discriminate. intros H; inversion H. reflexivity.
+  Qed.
+
+  Lemma validate_lacks c l : c = 10 \/ c = 13 -> validate pw canon gl l = true -> lacks c l = true.
+  Proof.
+    intros Hc H. unfold validate in H. apply andb_true_iff in H as [H _]. apply negb_true_iff in H.
+    unfold lacks. apply negb_true_iff. destruct (existsb (N.eqb c) l) eqn:E; auto.
+    apply existsb_exists in E as (x & Hx & Ex). apply N.eqb_eq in Ex. subst x.
+    enough (existsb (fun c => (c =? 13) || (c =? 10)) l = true) by congruence.
+    apply existsb_exists. exists c. split; auto. destruct Hc as [-> | ->]; reflexivity.
+  Qed.
+
+  Lemma render_starts i : exists rest, render_intent i = s_route_add_l ++ rest.
+  Proof. unfold render_intent. change s_route_add with s_route_add_l. eauto. Qed.
+
+  Theorem validate_good_line i : validate pw canon gl (render_intent i) = true -> good_line (render_intent i).
+  Proof.
+    intros H. pose proof (validate_lacks 10 _ (or_introl eq_refl) H) as Hnl.
+    pose proof (validate_lacks 13 _ (or_intror eq_refl) H) as Hcr.
+    split; [exact Hnl|]. split; [exact Hcr|].
+    unfold validate in H. apply andb_true_iff in H as [_ H].
+    unfold new_table, parse in H. rewrite split_lacks in H by exact Hnl. cbn [parse_lines] in H.
+    rewrite drop_cr_lacks in H by exact Hcr.
+    destruct (render_starts i) as (rest & E). destruct (parse_line_route_add rest) as (z & Hz).
+    rewrite <- E in Hz. rewrite Hz in *.
+    destruct (parse_route_add pw z) as [d| |] eqn:Ed; cbn [bind] in H; try discriminate.
+    exists d. split; [reflexivity|].
+    pose proof (parse_route_add_cmd z d Ed) as Hc.
+    unfold run in H. cbn [run_from] in H. unfold apply_def in H. rewrite Hc in H.
+    destruct (add_route canon gl [] d) as [t1| |] eqn:Ea; cbn [bind] in H; try discriminate.
+    eapply add_route_nil_addable; eauto.
+  Qed.
+
+  (* ================= theorems for ALL catalog entries (since d16ce3d) ================= *)
+  Notation build' := (build pw canon gl).
+
+  (* (1) every emitted command is accepted by NewTable on its own, and is one line *)
+  Theorem emitted_accepted_alone env prefix g c : In c (build' env prefix g) ->
+    is_ok (new_table pw canon gl c) = true /\ lacks 10 c = true /\ lacks 13 c = true
+    /\ exists i, In i (intents env prefix g) /\ c = render_intent i.
+  Proof.
+    unfold build. intros H. apply filter_In in H as [Hin Hv]. apply in_map_iff in Hin as (i & <- & Hi).
+    split; [unfold validate in Hv; now apply andb_true_iff in Hv as [_ Hv]|].
+    split; [now apply (validate_lacks 10); auto|]. split; [now apply (validate_lacks 13); auto|]. eauto.
+  Qed.
+
+  Lemma emitted_good env prefix g c : In c (build' env prefix g) -> good_line c.
+  Proof.
+    unfold build. intros H. apply filter_In in H as [Hin Hv]. apply in_map_iff in Hin as (i & <- & Hi).
+    now apply validate_good_line.
+  Qed.
+
+  Lemma in_insert_line x y l : In x (insert_line_desc y l) <-> x = y \/ In x l.
+  Proof.
+    induction l as [|z l IH]; cbn [insert_line_desc In]; [intuition auto|].
+    destruct (str_ltb z y); cbn [In]; rewrite ?IH; intuition auto.
+  Qed.
+  Lemma in_sort_lines x l : In x (sort_lines_desc l) <-> In x l.
+  Proof.
+    unfold sort_lines_desc. induction l as [|y l IH]; cbn [fold_right In]; [reflexivity|].
+    rewrite in_insert_line, IH. intuition auto.
+  Qed.
+
+  (* (2) whatever the catalog entries are -- expressible or not -- the text makeConfig assembles
+     from the emitted commands of any set of services is accepted by NewTable; the table holds the
+     target of every emitted command and nothing else *)
+  Theorem emitted_table_accepted env prefix (regs : list reg) :
+    let lines := sort_lines_desc (flat_map (build' env prefix) regs) in
+    exists t, new_table pw canon gl (config_text lines) = Ok t
+      /\ (forall g c d, In g regs -> In c (build' env prefix g) -> parse_line pw c = Ok (Some d) ->
+            exists url tg, canon (d_dst d) = Some url
+             /\ In (lower (fst (hostpath (d_src d))), snd (hostpath (d_src d)), tg) (flat t)
+             /\ same_target (d_svc d) url (w_clamp (d_w d)) (d_tags d) tg = true)
+      /\ (forall x, In x (flat t) -> exists g c d url, In g regs /\ In c (build' env prefix g)
+             /\ parse_line pw c = Ok (Some d) /\ canon (d_dst d) = Some url /\ x = trip d url).
+  Proof.
+    cbn zeta.
+    assert (Hgood : Forall good_line (sort_lines_desc (flat_map (build' env prefix) regs))).
+    { apply Forall_forall. intros c Hc. apply (proj1 (in_sort_lines _ _)) in Hc. apply in_flat_map in Hc as (g & Hg & Hc).
+      eapply emitted_good; eauto. }
+    destruct (lines_table _ Hgood) as (t & Ht & Hin & Horig). exists t. split; [exact Ht|]. split.
+    - intros g c d Hg Hc Hd. apply (Hin c d); auto. apply (proj2 (in_sort_lines _ _)). apply in_flat_map. eauto.
+    - intros x Hx. destruct (Horig x Hx) as (c & d & url & Hc & Hd & Hu & ->).
+      apply (proj1 (in_sort_lines _ _)) in Hc. apply in_flat_map in Hc as (g & Hg & Hc). exists g, c, d, url. auto.
+  Qed.
+
+  (* (3) a dropped registration never removes another service's commands: what an entry emits
+     depends on that entry alone, and every emitted command is a line of the pushed text,
+     whatever the other entries are *)
+  Theorem dropped_never_removes_others env prefix (regs : list reg) g c :
+    In g regs -> In c (build' env prefix g) ->
+    In c (sort_lines_desc (flat_map (build' env prefix) regs)).
+  Proof. intros Hg Hc. apply (proj2 (in_sort_lines _ _)). apply in_flat_map. eauto. Qed.
+
+  (* (3), history form.  The catalog is read again on every health change: a history is a list of
+     rounds, each a list of catalog entries.  The text pushed in a round is a function of that
+     round's entries alone -- whatever was registered, accepted or dropped in earlier rounds
+     (the model of build has no state; the correspondence run replays histories in one process
+     of the real code) -- and the text of every round of every history is accepted by NewTable. *)
+  Definition round_text env prefix (regs : list reg) : str :=
+    config_text (sort_lines_desc (flat_map (build' env prefix) regs)).
+  Definition history_texts env prefix (rounds : list (list reg)) : list str :=
+    map (round_text env prefix) rounds.
+
+  Theorem history_independent env prefix (before1 before2 after1 after2 : list (list reg)) regs :
+    nth_error (history_texts env prefix (before1 ++ regs :: after1)) (length before1)
+    = nth_error (history_texts env prefix (before2 ++ regs :: after2)) (length before2).
+  Proof.
+    unfold history_texts. rewrite !map_app. cbn [map].
+    rewrite !nth_error_app2 by (rewrite map_length; auto).
+    rewrite !map_length, !Nat.sub_diag. reflexivity.
+  Qed.
+
+  Theorem history_rounds_accepted env prefix (rounds : list (list reg)) :
+    Forall (fun text => exists t, new_table pw canon gl text = Ok t) (history_texts env prefix rounds).
+  Proof.
+    unfold history_texts. apply Forall_forall. intros text Hin. apply in_map_iff in Hin as (regs & <- & _).
+    destruct (emitted_table_accepted env prefix regs) as (t & Ht & _). now exists t.
+  Qed.
+
+  (* ================= the expressible domain ================= *)
+  Let ex := expr pw canon gl.
+
+  Lemma expr_good_line i : ex i = true -> good_line (render_intent i) /\ exists d, intent_def pw i = Ok d /\ parse_line pw (render_intent i) = Ok (Some d).
+  Proof.
+    intros H. destruct (render_parse_line pw canon gl i H) as (d & Hd & Hp & _).
+    destruct (expr_inv pw canon gl i H) as (Hs & Hr & Hg & Hh & Hdst & Hc & Hw & Ht & Ho).
+    split; [|eauto]. split; [now apply render_lacks_nl with (pw := pw) (canon := canon) (gl := gl)|].
+    split; [now apply render_lacks_cr with (pw := pw) (canon := canon) (gl := gl)|].
+    exists d. split; [exact Hp|].
+    destruct (intent_def_fields pw i d Hd) as (F0 & F1 & F2 & F3 & F4 & F5).
+    unfold addable. rewrite F0, F2, F3. repeat split; auto.
     - intros E1. rewrite E1 in Hr. discriminate.
-    - intros E1. rewrite E1 in Hd. discriminate.
+    - intros E1. rewrite E1 in Hdst. discriminate.
   Qed.
 
-  (* (2) on the domain: whatever the order of the lines, the text of expressible registrations is
-     accepted, every registration's target is in the table under (lower-cased host, path), and
-     the table holds nothing else *)
+  (* an expressible registration is never dropped *)
+  Theorem expressible_validates i : ex i = true -> validate pw canon gl (render_intent i) = true.
+  Proof.
+    intros H. destruct (expr_good_line i H) as [Hg _].
+    assert (Hall : Forall good_line [render_intent i]) by (constructor; [exact Hg | constructor]).
+    destruct (lines_table _ Hall) as (t & Ht & _). change (config_text [render_intent i]) with (render_intent i) in Ht.
+    destruct Hg as (Hnl & Hcr & _). unfold validate. rewrite Ht. cbn [is_ok]. rewrite andb_true_r.
+    apply negb_true_iff. destruct (existsb _ (render_intent i)) eqn:E; auto.
+    apply existsb_exists in E as (x & Hx & Ex). exfalso.
+    unfold lacks in Hnl, Hcr. apply negb_true_iff in Hnl, Hcr.
+    apply orb_true_iff in Ex as [Ex|Ex]; apply N.eqb_eq in Ex; subst x.
+    - enough (existsb (N.eqb 13) (render_intent i) = true) by congruence. apply existsb_exists. now exists 13.
+    - enough (existsb (N.eqb 10) (render_intent i) = true) by congruence. apply existsb_exists. now exists 10.
+  Qed.
+
+  Theorem build_expressible env prefix g : expressible pw canon gl env prefix g = true ->
+    build' env prefix g = map render_intent (intents env prefix g).
+  Proof.
+    intros H. unfold build. apply filter_all_true. intros c Hc. apply in_map_iff in Hc as (i & <- & Hi).
+    unfold expressible in H. rewrite forallb_forall in H. now apply expressible_validates, H.
+  Qed.
+
+  (* (1) for an expressible catalog entry: every routing tag yields a command (none is dropped),
+     route.Parse accepts it as exactly one definition, and that definition says what the entry says *)
+  Theorem build_parse_denotes env prefix g :
+    expressible pw canon gl env prefix g = true ->
+    Forall (fun i => In (render_intent i) (build' env prefix g)
+                  /\ exists d, parse pw (render_intent i) = Ok [d]
+                      /\ intent_def pw i = Ok d
+                      /\ d_cmd d = CmdAdd /\ d_svc d = g_name g /\ d_src d = i_route i /\ d_dst d = i_dst i
+                      /\ parse_weight pw (Some (i_weight i)) = Ok (d_w d)
+                      /\ d_tags d = svc_tags prefix g /\ d_opts d = opts_map (i_opts i))
+           (intents env prefix g).
+  Proof.
+    intros Hex. pose proof (build_expressible env prefix g Hex) as Hb.
+    unfold expressible in Hex. apply Forall_forall. intros i Hi.
+    rewrite forallb_forall in Hex. specialize (Hex i Hi).
+    split; [rewrite Hb; now apply in_map|].
+    destruct (render_parse_line pw canon gl i Hex) as (d & Hd & Hp & He). exists d.
+    assert (Hi' : i_svc i = g_name g /\ i_tags i = svc_tags prefix g).
+    { unfold intents in Hi. apply in_flat_map in Hi as (tag & _ & Hi). unfold intent_of_tag in Hi.
+      destruct (parse_url_prefix_tag env prefix tag) as [[r o]|]; [|destruct Hi].
+      destruct (fold_left _ _ _) as [[dst w] ro]. destruct Hi as [<-|[]]. split; reflexivity. }
+    destruct Hi' as [Hn Ht].
+    split.
+    - unfold parse. rewrite split_lacks by (now apply render_lacks_nl with (pw := pw) (canon := canon) (gl := gl)).
+      cbn [parse_lines]. rewrite drop_cr_id by assumption. rewrite Hp. reflexivity.
+    - split; [exact Hd|]. unfold intent_def in Hd.
+      destruct (parse_weight pw (Some (i_weight i))) as [f| |]; try discriminate.
+      inversion Hd; subst d. cbn [d_cmd d_svc d_src d_dst d_w d_tags d_opts]. repeat split; auto.
+  Qed.
+
+  (* (2) on the domain, for any order of the lines *)
   Theorem table_on_domain (is : list intent) :
     Forall (fun i => ex i = true) is ->
-    exists t, new_table pw canon gl (config_text (map (render_intent isp) is)) = Ok t
+    exists t, new_table pw canon gl (config_text (map render_intent is)) = Ok t
       /\ (forall i, In i is -> exists d url tg, intent_def pw i = Ok d /\ canon (i_dst i) = Some url
              /\ In (lower (fst (hostpath (i_route i))), snd (hostpath (i_route i)), tg) (flat t)
              /\ same_target (i_svc i) url (w_clamp (d_w d)) (i_tags i) tg = true)
@@ -644,32 +875,18 @@ Section TableDomain.
              /\ x = trip d url).
   Proof.
     intros Hall. rewrite Forall_forall in Hall.
-    assert (Hparse : parse pw (config_text (map (render_intent isp) is)) = Ok (flat_map (fun i => olist (idef i)) is)).
-    { destruct is as [|i0 is0] eqn:Eis; [reflexivity|]. rewrite <- Eis in *.
-      unfold parse, config_text. rewrite split_join.
-      - apply parse_lines_map. intros i Hi. destruct (render_parse_line isp pw canon gl i (Hall i Hi)) as (d & Hd & Hp & He).
-        rewrite drop_cr_id by assumption. rewrite Hp. unfold idef. now rewrite Hd.
-      - rewrite Eis. discriminate.
-      - apply forallb_forall. intros l Hl. apply in_map_iff in Hl as (i & <- & Hi).
-        apply render_lacks_nl with (pw := pw) (canon := canon) (gl := gl). now apply Hall. }
-    assert (Hadd : Forall addable (flat_map (fun i => olist (idef i)) is)).
-    { apply Forall_forall. intros d Hd. apply in_flat_map in Hd as (i & Hi & Hd).
-      destruct (idef i) as [d'|] eqn:E; [|destruct Hd]. destruct Hd as [<-|[]].
-      eapply idef_addable; eauto. }
-    destruct (run_from_adds _ [] Hadd) as (t0 & Hrun & _ & Hin & Horig).
-    exists (sort_table t0). unfold new_table. rewrite Hparse. cbn [bind]. unfold run. rewrite Hrun. cbn [bind].
-    split; [reflexivity|]. split.
-    - intros i Hi. destruct (render_parse_line isp pw canon gl i (Hall i Hi)) as (d & Hd & _).
-      assert (Hdin : In d (flat_map (fun i => olist (idef i)) is)).
-      { apply in_flat_map. exists i. split; auto. unfold idef. rewrite Hd. now left. }
-      destruct (Hin d Hdin) as (url & tg & Hu & Htg & Hs).
+    assert (Hgood : Forall good_line (map render_intent is)).
+    { apply Forall_forall. intros l Hl. apply in_map_iff in Hl as (i & <- & Hi). now apply expr_good_line, Hall. }
+    destruct (lines_table _ Hgood) as (t & Ht & Hin & Horig). exists t. split; [exact Ht|]. split.
+    - intros i Hi. destruct (expr_good_line i (Hall i Hi)) as (_ & d & Hd & Hp).
+      destruct (Hin (render_intent i) d (in_map _ _ _ Hi) Hp) as (url & tg & Hu & Htg & Hs).
       destruct (intent_def_fields pw i d Hd) as (_ & F1 & F2 & F3 & F4 & _). rewrite F1, F2, F3, F4 in *.
-      exists d, url, tg. split; [exact Hd|]. split; [exact Hu|]. split; [now apply (proj2 (in_flat_sort _ _)) | exact Hs].
-    - intros x Hx. apply (proj1 (in_flat_sort _ _)) in Hx. destruct (Horig x Hx) as [[]|(d & url & Hd & Hu & ->)].
-      apply in_flat_map in Hd as (i & Hi & Hd). destruct (idef i) as [d'|] eqn:E; [|destruct Hd]. destruct Hd as [<-|[]].
-      exists i, d', url. unfold idef in E. destruct (intent_def pw i) as [d0| |] eqn:E0; try discriminate.
-      inversion E; subst d0. repeat split; auto.
-      destruct (intent_def_fields pw i d' E0) as (_ & _ & _ & F3 & _). now rewrite <- F3.
+      exists d, url, tg. auto.
+    - intros x Hx. destruct (Horig x Hx) as (l & d & url & Hl & Hd & Hu & ->).
+      apply in_map_iff in Hl as (i & <- & Hi).
+      destruct (expr_good_line i (Hall i Hi)) as (_ & d' & Hd' & Hp'). rewrite Hp' in Hd. inversion Hd; subst d'.
+      destruct (intent_def_fields pw i d Hd') as (_ & _ & _ & F3 & _). rewrite F3 in Hu.
+      exists i, d, url. auto.
   Qed.
 
   (* makeConfig's sort only permutes the lines *)
@@ -692,10 +909,11 @@ Section TableDomain.
       intros z. rewrite H'. cbn [In]. rewrite H. intuition auto.
   Qed.
 
-  (* (2) for catalog entries, with the text exactly as makeConfig assembles it *)
+  (* (2) on the domain, for catalog entries, with the text exactly as makeConfig assembles it:
+     no command is dropped, and the table holds exactly what the entries ask for *)
   Theorem registrations_on_domain env prefix (regs : list reg) :
-    (forall g, In g regs -> expressible isp pw canon gl env prefix g = true) ->
-    exists t, new_table pw canon gl (config_text (sort_lines_desc (flat_map (build isp env prefix) regs))) = Ok t
+    (forall g, In g regs -> expressible pw canon gl env prefix g = true) ->
+    exists t, new_table pw canon gl (config_text (sort_lines_desc (flat_map (build' env prefix) regs))) = Ok t
       /\ (forall g i, In g regs -> In i (intents env prefix g) ->
             exists d url tg, intent_def pw i = Ok d /\ canon (i_dst i) = Some url
              /\ In (lower (fst (hostpath (i_route i))), snd (hostpath (i_route i)), tg) (flat t)
@@ -703,9 +921,11 @@ Section TableDomain.
       /\ (forall x, In x (flat t) -> exists g i d url, In g regs /\ In i (intents env prefix g)
              /\ intent_def pw i = Ok d /\ canon (i_dst i) = Some url /\ x = trip d url).
   Proof.
-    intros Hall. unfold build.
-    rewrite <- (map_flat_map (render_intent isp) (intents env prefix) regs).
-    destruct (sort_lines_map (render_intent isp) (flat_map (intents env prefix) regs)) as (ys & E & Hys).
+    intros Hall.
+    rewrite (flat_map_ext_in (build' env prefix) (fun g => map render_intent (intents env prefix g)))
+      by (intros g Hg; now apply build_expressible, Hall).
+    rewrite <- (map_flat_map render_intent (intents env prefix) regs).
+    destruct (sort_lines_map render_intent (flat_map (intents env prefix) regs)) as (ys & E & Hys).
     rewrite E.
     assert (Hex : Forall (fun i => ex i = true) ys).
     { apply Forall_forall. intros i Hi. apply Hys in Hi. apply in_flat_map in Hi as (g & Hg & Hi).
@@ -723,7 +943,7 @@ Section TableDomain.
   Qed.
 End TableDomain.
 
-(* ================= the expressible domain is not narrow: plain printable ASCII is quote-stable ================= *)
+(* ================= the code before d16ce3d: strconv.Quote ================= *)
 Definition plain (c : N) : bool := (32 <=? c) && (c <? 127) && negb (c =? 34) && negb (c =? 92).
 
 Lemma quote_byte_plain c : plain c = true -> quote_byte c = [c] /\ (c <? 128) = true.
@@ -740,7 +960,7 @@ Proof.
   cbn [quote_body]. rewrite Hlt, Hq, (IH Hs). reflexivity.
 Qed.
 
-(* ================= concrete registrations: the defects, and non-vacuity ================= *)
+(* ================= concrete registrations ================= *)
 Definition all_print (r : N) : bool := true.
 Definition env_dc : env_t := Some [(bs "DC", bs "dc1")].
 Definition pfx : str := bs "urlprefix-".
@@ -758,12 +978,23 @@ Definition reg_name_space : reg := mkreg "my svc" "10.0.0.2" 80 [bs "urlprefix-/
 Definition reg_backslash : reg := mkreg "bad" "10.0.0.2" 80 [bs "urlprefix-/bad"; bs "a\b"].
 Definition reg_comma : reg := mkreg "bad" "10.0.0.2" 80 [bs "urlprefix-/bad"; bs "a,b"].
 Definition reg_ctrl : reg := mkreg "bad" "10.0.0.2" 80 [bs "urlprefix-/bad"; [97; 1; 98]].
+Definition reg_empty_tag : reg := mkreg "bad" "10.0.0.2" 80 [bs "urlprefix-/bad"; []].
+Definition reg_name_blank : reg := mkreg "svc " "10.0.0.2" 80 [bs "urlprefix-/bad"].
+Definition reg_half : reg := mkreg "half" "10.0.0.2" 80 [bs "urlprefix-/ok"; bs "urlprefix-/bad weight=abc"].
+Definition reg_bad_host : reg := mkreg "bad" "10.0.0.2" 80 [bs "urlprefix-[X.com/"].
+Definition ex_glob (p : str) : bool := negb (beq p (bs "[x.com")).
 
-Definition ex_expressible : reg -> bool := expressible all_print pweight_dec idcanon anyglob env_dc pfx.
-Definition ex_build : reg -> list str := build all_print env_dc pfx.
+Definition ex_expressible : reg -> bool := expressible pweight_dec idcanon anyglob env_dc pfx.
+Definition ex_build : reg -> list str := build pweight_dec idcanon anyglob env_dc pfx.
 Definition ex_text (regs : list reg) : str := config_text (sort_lines_desc (flat_map ex_build regs)).
 Definition ex_table (regs : list reg) : outcome table := new_table pweight_dec idcanon anyglob (ex_text regs).
 Definition ex_intents : reg -> list intent := intents env_dc pfx.
+Definition ex_altering : intent -> bool := F_C14_altering pweight_dec idcanon anyglob.
+
+Definition ex_build_unrepaired : reg -> list str := build_unrepaired all_print env_dc pfx.
+Definition ex_text_unrepaired (regs : list reg) : str := config_text (sort_lines_desc (flat_map ex_build_unrepaired regs)).
+Definition ex_table_unrepaired (regs : list reg) : outcome table :=
+  new_table pweight_dec idcanon anyglob (ex_text_unrepaired regs).
 
 (* the hypotheses of the on-domain theorems are met by real, non-trivial registrations: IPv6
    address, environment expansion, upper-case host, proto / weight / passed-through options, a
@@ -781,74 +1012,96 @@ Proof.
   eexists. split; [vm_compute; reflexivity|]. split; vm_compute; reflexivity.
 Qed.
 
-(* (2) is false: one inexpressible registration and NO service gets its routes.  The good
-   service alone yields a table; beside a tag containing a double quote, an option weight=abc or
-   a service name with a space, the whole text is rejected. *)
-Theorem bad_registration_blocks_all_refuted :
+(* since d16ce3d: a registration the command language cannot express is dropped on its own.  The
+   entries that used to block every service now emit nothing, the table of the others is built;
+   of an entry with one good and one bad routing tag only the bad command is dropped *)
+Theorem bad_registration_dropped_alone :
+  ex_build reg_quote = [] /\ ex_build reg_weight_abc = [] /\ ex_build reg_name_space = []
+  /\ new_table pweight_dec idcanon ex_glob
+       (config_text (sort_lines_desc (flat_map (build pweight_dec idcanon ex_glob env_dc pfx) [reg_good; reg_bad_host])))
+     = new_table pweight_dec idcanon ex_glob (ex_text [reg_good])
+  /\ ex_build reg_half = [bs "route add half /ok http://10.0.0.2:80/"]
+  /\ ex_table [reg_quote; reg_good; reg_weight_abc; reg_name_space; reg_half] = ex_table [reg_good; reg_half]
+  /\ exists t, ex_table [reg_good; reg_half] = Ok t /\ length (flat t) = 2%nat.
+Proof.
+  repeat (split; [vm_compute; reflexivity|]). eexists. split; vm_compute; reflexivity.
+Qed.
+
+Definition parsed_tags (cmds : list str) : outcome (list (list str)) :=
+  match cmds with
+  | [c] => match parse pweight_dec c with Ok ds => Ok (map d_tags ds) | Err k => Err k | Panic => Panic end
+  | _ => Err 0
+  end.
+Definition ex_parsed_tags (g : reg) : outcome (list (list str)) := parsed_tags (ex_build g).
+Definition ex_parsed_tags_unrepaired (g : reg) : outcome (list (list str)) := parsed_tags (ex_build_unrepaired g).
+
+(* since d16ce3d: a backslash, a control byte come back as they were registered *)
+Theorem backslash_control_tags_roundtrip :
+  ex_expressible reg_backslash = true /\ ex_parsed_tags reg_backslash = Ok [[bs "a\b"]]
+  /\ ex_expressible reg_ctrl = true /\ ex_parsed_tags reg_ctrl = Ok [[[97; 1; 98]]].
+Proof. repeat split; vm_compute; reflexivity. Qed.
+
+(* what remains of F-C14-2: a tag containing a comma comes back as two tags ... *)
+Theorem comma_tag_split_refuted :
+  svc_tags pfx reg_comma = [bs "a,b"]
+  /\ ex_parsed_tags reg_comma = Ok [[bs "a"; bs "b"]]
+  /\ existsb ex_altering (ex_intents reg_comma) = true.
+Proof. repeat split; vm_compute; reflexivity. Qed.
+
+(* ... a single empty tag as no tag ... *)
+Theorem sole_empty_tag_lost_refuted :
+  svc_tags pfx reg_empty_tag = [[]]
+  /\ ex_parsed_tags reg_empty_tag = Ok [[]]
+  /\ existsb ex_altering (ex_intents reg_empty_tag) = true.
+Proof. repeat split; vm_compute; reflexivity. Qed.
+
+(* ... and a service name with a blank at an end is accepted under another name *)
+Theorem name_blank_altered_refuted :
+  g_name reg_name_blank = bs "svc "
+  /\ (match ex_build reg_name_blank with
+      | [c] => match parse pweight_dec c with Ok ds => Ok (map d_svc ds) | Err k => Err k | Panic => Panic end
+      | _ => Err 0
+      end) = Ok [bs "svc"]
+  /\ existsb ex_altering (ex_intents reg_name_blank) = true.
+Proof. repeat split; vm_compute; reflexivity. Qed.
+
+(* ---- the code before d16ce3d (findings F-C14-1 and the wider F-C14-2, now repaired) ---- *)
+Definition ex_blocking : intent -> bool := F_C14_blocking pweight_dec idcanon anyglob.
+
+Theorem bad_registration_blocks_all_unrepaired_refuted :
   ex_expressible reg_good = true
-  /\ (exists t, ex_table [reg_good] = Ok t /\ length (flat t) = 1%nat)
-  /\ existsb (F_C14_blocking pweight_dec idcanon anyglob) (ex_intents reg_quote) = true
-  /\ ex_table [reg_good; reg_quote] = Err e_add_invalid
-  /\ existsb (F_C14_blocking pweight_dec idcanon anyglob) (ex_intents reg_weight_abc) = true
-  /\ ex_table [reg_good; reg_weight_abc] = Err e_weight_value
-  /\ existsb (F_C14_blocking pweight_dec idcanon anyglob) (ex_intents reg_name_space) = true
-  /\ ex_table [reg_good; reg_name_space] = Err e_add_invalid.
+  /\ (exists t, ex_table_unrepaired [reg_good] = Ok t /\ length (flat t) = 1%nat)
+  /\ existsb ex_blocking (ex_intents reg_quote) = true
+  /\ ex_table_unrepaired [reg_good; reg_quote] = Err e_add_invalid
+  /\ existsb ex_blocking (ex_intents reg_weight_abc) = true
+  /\ ex_table_unrepaired [reg_good; reg_weight_abc] = Err e_weight_value
+  /\ existsb ex_blocking (ex_intents reg_name_space) = true
+  /\ ex_table_unrepaired [reg_good; reg_name_space] = Err e_add_invalid.
 Proof.
   split; [vm_compute; reflexivity|]. split; [eexists; split; vm_compute; reflexivity|].
   repeat split; vm_compute; reflexivity.
 Qed.
 
-(* the general form of the failed clause *)
-Theorem independent_of_other_registrations_refuted :
-  ~ (forall regs g, In g regs -> ex_expressible g = true -> exists t, ex_table regs = Ok t).
+Theorem independent_of_other_registrations_unrepaired_refuted :
+  ~ (forall regs g, In g regs -> ex_expressible g = true -> exists t, ex_table_unrepaired regs = Ok t).
 Proof.
   intros H. destruct (H [reg_good; reg_quote] reg_good (or_introl eq_refl)) as [t Ht]; [vm_compute; reflexivity|].
   vm_compute in Ht. discriminate.
 Qed.
 
-(* a tag containing a backslash is accepted but denotes another tag *)
-Definition ex_parsed_tags (g : reg) : outcome (list (list str)) :=
-  match ex_build g with
-  | [c] => match parse pweight_dec c with Ok ds => Ok (map d_tags ds) | Err k => Err k | Panic => Panic end
-  | _ => Err 0
-  end.
+Theorem bad_host_blocks_all_unrepaired_refuted :
+  existsb (F_C14_blocking pweight_dec idcanon ex_glob) (ex_intents reg_bad_host) = true
+  /\ new_table pweight_dec idcanon ex_glob (ex_text_unrepaired [reg_good; reg_bad_host]) = Err e_invalid_host.
+Proof. split; vm_compute; reflexivity. Qed.
 
-Theorem backslash_tag_altered_refuted :
+Theorem backslash_tag_altered_unrepaired_refuted :
   svc_tags pfx reg_backslash = [bs "a\b"]
-  /\ ex_parsed_tags reg_backslash = Ok [[bs "a\\b"]]
-  /\ existsb (F_C14_altering all_print pweight_dec idcanon anyglob) (ex_intents reg_backslash) = true
-  /\ exists t, ex_table [reg_good; reg_backslash] = Ok t
-       /\ map (fun x => t_tags (snd x)) (flat t) = [[bs "blue"]; [bs "a\\b"]].
-Proof.
-  split; [vm_compute; reflexivity|]. split; [vm_compute; reflexivity|]. split; [vm_compute; reflexivity|].
-  eexists. split; vm_compute; reflexivity.
-Qed.
-
-(* a tag containing a comma comes back as two tags *)
-Theorem comma_tag_split_refuted :
-  svc_tags pfx reg_comma = [bs "a,b"]
-  /\ ex_parsed_tags reg_comma = Ok [[bs "a"; bs "b"]]
-  /\ existsb (F_C14_altering all_print pweight_dec idcanon anyglob) (ex_intents reg_comma) = true.
+  /\ ex_parsed_tags_unrepaired reg_backslash = Ok [[bs "a\\b"]]
+  /\ existsb (F_C14_altering_unrepaired all_print pweight_dec idcanon anyglob) (ex_intents reg_backslash) = true.
 Proof. repeat split; vm_compute; reflexivity. Qed.
 
-(* a control byte comes back as the four characters of its escape *)
-Theorem control_byte_tag_altered_refuted :
+Theorem control_byte_tag_altered_unrepaired_refuted :
   svc_tags pfx reg_ctrl = [[97; 1; 98]]
-  /\ ex_parsed_tags reg_ctrl = Ok [[bs "a\x01b"]]
-  /\ existsb (F_C14_altering all_print pweight_dec idcanon anyglob) (ex_intents reg_ctrl) = true.
+  /\ ex_parsed_tags_unrepaired reg_ctrl = Ok [[bs "a\x01b"]]
+  /\ existsb (F_C14_altering_unrepaired all_print pweight_dec idcanon anyglob) (ex_intents reg_ctrl) = true.
 Proof. repeat split; vm_compute; reflexivity. Qed.
-
-(* since /repo c9fb527 a routing tag whose host does not compile as a glob is rejected by addRoute
-   ('route: invalid host.'): it no longer crashes lookups, it blocks every other service instead *)
-Definition reg_bad_host : reg := mkreg "bad" "10.0.0.2" 80 [bs "urlprefix-[X.com/"].
-Definition ex_glob (p : str) : bool := negb (beq p (bs "[x.com")).
-
-Theorem bad_host_blocks_all_refuted :
-  expressible all_print pweight_dec idcanon ex_glob env_dc pfx reg_good = true
-  /\ existsb (F_C14_blocking pweight_dec idcanon ex_glob) (ex_intents reg_bad_host) = true
-  /\ new_table pweight_dec idcanon ex_glob (ex_text [reg_good; reg_bad_host]) = Err e_invalid_host
-  /\ exists t, new_table pweight_dec idcanon ex_glob (ex_text [reg_good]) = Ok t /\ length (flat t) = 1%nat.
-Proof.
-  split; [vm_compute; reflexivity|]. split; [vm_compute; reflexivity|]. split; [vm_compute; reflexivity|].
-  eexists. split; vm_compute; reflexivity.
-Qed.
